@@ -53,6 +53,14 @@ func NewWarmUpTrafficShapingCalculator(owner *TrafficShapingController, rule *Ru
 
 	maxToken := warningToken + uint64(2*float64(rule.WarmUpPeriodSec)*rule.Threshold/float64(1.0+coldFactor))
 
+	if rule.Threshold <= 0 || maxToken <= warningToken {
+		// Degenerate warm-up: the threshold is so small that the token bucket has no capacity
+		// (both token marks truncate to the same value) or is zero. The slope below would divide
+		// by zero and the computed threshold would be NaN/Inf, which the reject checker treats as
+		// "never exceeded". There is nothing to warm up, so shape directly by the threshold.
+		return NewDirectTrafficShapingCalculator(owner, rule.Threshold)
+	}
+
 	slope := float64(coldFactor-1.0) / rule.Threshold / float64(maxToken-warningToken)
 
 	warmUpTrafficShapingCalculator := &WarmUpTrafficShapingCalculator{
